@@ -156,7 +156,7 @@ func (r *Reporter) Violation(key, what string, write func(dir string)) {
 	if _, ok := r.violations[key]; ok {
 		return
 	}
-	dir := filepath.Join(r.env.Verif, "replays", r.Prop,
+	dir := filepath.Join(outRoot(r.env.Verif), "replays", r.Prop,
 		fmt.Sprintf("%02d-%s", len(r.vioOrder)+1, unsafeRE.ReplaceAllString(key, "_")))
 	os.RemoveAll(dir)
 	os.MkdirAll(dir, 0755)
@@ -225,7 +225,7 @@ func (r *Reporter) Finish() int {
 	if err != nil {
 		run.Fatal("evidence: %v", err)
 	}
-	dir := filepath.Join(r.env.Verif, "evidence")
+	dir := filepath.Join(outRoot(r.env.Verif), "evidence")
 	os.MkdirAll(dir, 0755)
 	file := filepath.Join(dir, r.Prop+".json")
 	tmp := file + ".tmp"
@@ -293,4 +293,13 @@ func (r *Reporter) FinishReplay() int {
 	}
 	fmt.Println("no violation on replay")
 	return 0
+}
+
+// outRoot is /verif, or $VERIF_OUT when seeded changes are tried out in
+// parallel (development only; registered commands never set it).
+func outRoot(verif string) string {
+	if d := os.Getenv("VERIF_OUT"); d != "" {
+		return d
+	}
+	return verif
 }
